@@ -93,6 +93,47 @@ type qstep struct {
 	// get: the read returns single chunks; for each the id of the chunk it must be
 	// ("": must be nil), read off the members the queried collection had before.
 	get func(t *rag.ChunkCollection, members []string) (got []*rag.Chunk, wantID []string)
+	// calls: the step in the grammar of the ops c12.query / c12.lquery (Model/ChunkColl.lean):
+	// one call for a query, one per part for GetBy… and the statistics; nil: not modelled.
+	calls []string
+	// meta: the call reads ElementTypes / HasTable / HasList / HasImage
+	meta bool
+}
+
+// lowerASCII is strings.ToLower for a text whose upper-case letters are ASCII.
+func lowerASCII(s string) string {
+	b := []byte(s)
+	for i, ch := range b {
+		if ch >= 'A' && ch <= 'Z' {
+			b[i] = ch + 32
+		}
+	}
+	return string(b)
+}
+
+// caseIsASCII: strings.ToLower changes ASCII letters only (the model's ToLower is exact on such texts).
+func caseIsASCII(s string) bool { return strings.ToLower(s) == lowerASCII(s) }
+
+func dumpIdx(chunks []*rag.Chunk) string {
+	if len(chunks) == 0 {
+		return "c~"
+	}
+	ps := make([]string, len(chunks))
+	for i, ch := range chunks {
+		if ch == nil {
+			ps[i] = "nil"
+		} else {
+			ps[i] = fmt.Sprint(ch.Metadata.ChunkIndex)
+		}
+	}
+	return "c" + strings.Join(ps, "+")
+}
+
+func dumpOne(ch *rag.Chunk) string {
+	if ch == nil {
+		return "knil"
+	}
+	return fmt.Sprintf("k%d", ch.Metadata.ChunkIndex)
 }
 
 // wordsOf lists the words of the chunk texts (letters and digits only), so that a
@@ -142,8 +183,8 @@ func pickStep(r *hx.Rng, d ldoc, base []csnap, tn int) qstep {
 		}
 		return base[r.Intn(n)], true
 	}
-	coll := func(kind, name string, want func(cview) bool, run func(*rag.ChunkCollection) *rag.ChunkCollection) qstep {
-		return qstep{kind: kind, name: name, run: run, want: want}
+	coll := func(kind, name string, want func(cview) bool, run func(*rag.ChunkCollection) *rag.ChunkCollection, call ...string) qstep {
+		return qstep{kind: kind, name: name, run: run, want: want, calls: call}
 	}
 	plain := func(kind, name string, f func(*rag.ChunkCollection)) qstep {
 		return qstep{kind: kind, name: name, run: func(t *rag.ChunkCollection) *rag.ChunkCollection { f(t); return nil }}
@@ -153,7 +194,7 @@ func pickStep(r *hx.Rng, d ldoc, base []csnap, tn int) qstep {
 		p := page()
 		return coll("FilterByPage", fmt.Sprintf("FilterByPage(%d)", p),
 			func(v cview) bool { return v.PS <= p && p <= v.PE },
-			func(t *rag.ChunkCollection) *rag.ChunkCollection { return t.FilterByPage(p) })
+			func(t *rag.ChunkCollection) *rag.ChunkCollection { return t.FilterByPage(p) }, fmt.Sprintf("pg.%d", p))
 	case 3:
 		a, b := page(), page()
 		if a > b && r.Chance(3, 4) {
@@ -161,7 +202,7 @@ func pickStep(r *hx.Rng, d ldoc, base []csnap, tn int) qstep {
 		}
 		return coll("FilterByPageRange", fmt.Sprintf("FilterByPageRange(%d,%d)", a, b),
 			func(v cview) bool { return v.PE >= a && v.PS <= b },
-			func(t *rag.ChunkCollection) *rag.ChunkCollection { return t.FilterByPageRange(a, b) })
+			func(t *rag.ChunkCollection) *rag.ChunkCollection { return t.FilterByPageRange(a, b) }, fmt.Sprintf("pr.%d.%d", a, b))
 	case 4, 5:
 		s := "nosuchsection"
 		if hs := headingTexts(d); len(hs) > 0 && r.Chance(2, 3) {
@@ -181,17 +222,25 @@ func pickStep(r *hx.Rng, d ldoc, base []csnap, tn int) qstep {
 				}
 				return false
 			},
-			func(t *rag.ChunkCollection) *rag.ChunkCollection { return t.FilterBySection(s) })
+			func(t *rag.ChunkCollection) *rag.ChunkCollection { return t.FilterBySection(s) }, "sec."+hx.HexS(s))
 	case 6:
 		ty := hx.Pick(r, []string{"paragraph", "heading", "list", "table", "image", "Paragraph", "TABLE", "nosuchtype"})
-		return coll("FilterByElementType", fmt.Sprintf("FilterByElementType(%q)", ty), nil,
-			func(t *rag.ChunkCollection) *rag.ChunkCollection { return t.FilterByElementType(ty) })
+		st := coll("FilterByElementType", fmt.Sprintf("FilterByElementType(%q)", ty), nil,
+			func(t *rag.ChunkCollection) *rag.ChunkCollection { return t.FilterByElementType(ty) }, "et."+hx.HexS(ty))
+		st.meta = true
+		return st
 	case 7:
-		return coll("FilterWithTables", "FilterWithTables()", nil, func(t *rag.ChunkCollection) *rag.ChunkCollection { return t.FilterWithTables() })
+		st := coll("FilterWithTables", "FilterWithTables()", nil, func(t *rag.ChunkCollection) *rag.ChunkCollection { return t.FilterWithTables() }, "wt")
+		st.meta = true
+		return st
 	case 8:
-		return coll("FilterWithLists", "FilterWithLists()", nil, func(t *rag.ChunkCollection) *rag.ChunkCollection { return t.FilterWithLists() })
+		st := coll("FilterWithLists", "FilterWithLists()", nil, func(t *rag.ChunkCollection) *rag.ChunkCollection { return t.FilterWithLists() }, "wl")
+		st.meta = true
+		return st
 	case 9:
-		return coll("FilterWithImages", "FilterWithImages()", nil, func(t *rag.ChunkCollection) *rag.ChunkCollection { return t.FilterWithImages() })
+		st := coll("FilterWithImages", "FilterWithImages()", nil, func(t *rag.ChunkCollection) *rag.ChunkCollection { return t.FilterWithImages() }, "wi")
+		st.meta = true
+		return st
 	case 10:
 		k := r.Range(0, 40)
 		if x, ok := anyChunk(); ok {
@@ -199,10 +248,10 @@ func pickStep(r *hx.Rng, d ldoc, base []csnap, tn int) qstep {
 		}
 		if r.Bool() {
 			return coll("FilterByMinTokens", fmt.Sprintf("FilterByMinTokens(%d)", k), nil,
-				func(t *rag.ChunkCollection) *rag.ChunkCollection { return t.FilterByMinTokens(k) })
+				func(t *rag.ChunkCollection) *rag.ChunkCollection { return t.FilterByMinTokens(k) }, fmt.Sprintf("mint.%d", k))
 		}
 		return coll("FilterByMaxTokens", fmt.Sprintf("FilterByMaxTokens(%d)", k), nil,
-			func(t *rag.ChunkCollection) *rag.ChunkCollection { return t.FilterByMaxTokens(k) })
+			func(t *rag.ChunkCollection) *rag.ChunkCollection { return t.FilterByMaxTokens(k) }, fmt.Sprintf("maxt.%d", k))
 	case 11, 12, 13:
 		w := "nosuchword"
 		if ws := wordsOf(base, r); len(ws) > 0 && r.Chance(7, 8) {
@@ -214,9 +263,19 @@ func pickStep(r *hx.Rng, d ldoc, base []csnap, tn int) qstep {
 			w = ""
 		}
 		lw := strings.ToLower(w)
+		// the model's ToLower is the ASCII one: sent only when that is what strings.ToLower does here
+		var call []string
+		if ok := caseIsASCII(w); ok {
+			for _, x := range base {
+				ok = ok && caseIsASCII(x.v.Text)
+			}
+			if ok {
+				call = []string{"s." + hx.HexS(w)}
+			}
+		}
 		return coll("Search", fmt.Sprintf("Search(%q)", clip(w)),
 			func(v cview) bool { return strings.Contains(strings.ToLower(v.Text), lw) },
-			func(t *rag.ChunkCollection) *rag.ChunkCollection { return t.Search(w) })
+			func(t *rag.ChunkCollection) *rag.ChunkCollection { return t.Search(w) }, call...)
 	case 14, 15:
 		m, k := r.Range(2, 4), r.Intn(4)
 		cut := r.Range(0, n+1)
@@ -225,13 +284,13 @@ func pickStep(r *hx.Rng, d ldoc, base []csnap, tn int) qstep {
 				func(v cview) bool { return v.Idx%m == k%m },
 				func(t *rag.ChunkCollection) *rag.ChunkCollection {
 					return t.Filter(func(c *rag.Chunk) bool { return c.Metadata.ChunkIndex%m == k%m })
-				})
+				}, fmt.Sprintf("mod.%d.%d", m, k%m))
 		}
 		return coll("Filter", fmt.Sprintf("Filter(index>=%d)", cut),
 			func(v cview) bool { return v.Idx >= cut },
 			func(t *rag.ChunkCollection) *rag.ChunkCollection {
 				return t.Filter(func(c *rag.Chunk) bool { return c.Metadata.ChunkIndex >= cut })
-			})
+			}, fmt.Sprintf("ge.%d", cut))
 	case 16, 17:
 		// a sub-collection made by hand from a part of the slice (a batch, a window)
 		a := r.Range(0, tn)
@@ -249,7 +308,7 @@ func pickStep(r *hx.Rng, d ldoc, base []csnap, tn int) qstep {
 					a = b
 				}
 				return rag.NewChunkCollection(s[a:b])
-			})
+			}, fmt.Sprintf("sl.%d.%d", a, b))
 	case 18:
 		i := r.Range(-1, tn)
 		id := "nosuchid"
@@ -257,6 +316,7 @@ func pickStep(r *hx.Rng, d ldoc, base []csnap, tn int) qstep {
 			id = x.v.ID
 		}
 		return qstep{kind: "GetBy", name: fmt.Sprintf("GetByIndex(%d),GetByID(%q),First(),Last()", i, id),
+			calls: []string{fmt.Sprintf("gi.%d", i), "gid." + hx.HexS(id), "first", "last"},
 			get: func(t *rag.ChunkCollection, members []string) ([]*rag.Chunk, []string) {
 				want := []string{"", "", "", ""}
 				if i >= 0 && i < len(members) {
@@ -273,7 +333,7 @@ func pickStep(r *hx.Rng, d ldoc, base []csnap, tn int) qstep {
 				return []*rag.Chunk{t.GetByIndex(i), t.GetByID(id), t.First(), t.Last()}, want
 			}}
 	case 19:
-		return plain("statistics", "Count(),GetAllSections(),GetPageRange(),GetTotalTokens(),GetTotalWords(),Statistics()", func(t *rag.ChunkCollection) {
+		st := plain("statistics", "Count(),GetAllSections(),GetPageRange(),GetTotalTokens(),GetTotalWords(),Statistics()", func(t *rag.ChunkCollection) {
 			t.Count()
 			t.GetAllSections()
 			t.GetPageRange()
@@ -282,6 +342,8 @@ func pickStep(r *hx.Rng, d ldoc, base []csnap, tn int) qstep {
 			st := t.Statistics()
 			st.ToJSON()
 		})
+		st.calls = []string{"count", "prange", "secs", "tok"}
+		return st
 	case 20:
 		return plain("markdown", "ToMarkdown(),ToMarkdownWithOptions(RAGOptimized),ToMarkdownChunks()", func(t *rag.ChunkCollection) {
 			t.ToMarkdown()
@@ -321,13 +383,20 @@ func pickStep(r *hx.Rng, d ldoc, base []csnap, tn int) qstep {
 
 // querySource chunks one document through one of the public entry points and
 // returns the collection together with the document the chunks are chunks of.
-func querySource(c *hx.Ctx, r *hx.Rng, idx int, sz sizeCase, src ldoc) (name string, d ldoc, coll *rag.ChunkCollection, layout bool, ok bool) {
+//
+// tie: the head of the op that replays the history on the model (c12.query … / c12.lquery …
+// up to and including the document); "" when the case is not sent.
+func querySource(c *hx.Ctx, r *hx.Rng, idx int, sz sizeCase, src ldoc) (name string, d ldoc, coll *rag.ChunkCollection, layout bool, tie string, ok bool) {
 	d = src
+	small := textBytes(src) <= 12000
 	switch r.Intn(10) {
 	case 0, 1, 2, 3, 4:
 		name = "element-based chunker, config " + sz.Name + fmt.Sprintf(" (api %d)", sz.API)
 		coll = chunkDoc(sz, toModel(src))
-		return name, d, coll, false, coll != nil
+		if w, wok := sizeWire(sz); wok && small {
+			tie = "c12.query " + w + " " + docWire(src)
+		}
+		return name, d, coll, false, tie, coll != nil
 	case 5, 6, 7:
 		lc := pickLayCfg(r)
 		name = fmt.Sprintf("rag.NewChunkCollection(<layout-based chunker, config %s (max %d, min %d, minHeadingLevel %d)>.Chunk(doc).Chunks)", lc.Name, lc.CC.MaxChunkSize, lc.CC.MinChunkSize, lc.CC.MinHeadingLevel)
@@ -339,9 +408,17 @@ func querySource(c *hx.Ctx, r *hx.Rng, idx int, sz sizeCase, src ldoc) (name str
 		}
 		res, err := ch.Chunk(toModel(src))
 		if err != nil || res == nil {
-			return name, d, nil, true, false
+			return name, d, nil, true, "", false
 		}
-		return name, d, rag.NewChunkCollection(res.Chunks), true, true
+		if small {
+			keep := 0
+			if lc.CC.PreserveListCoherence {
+				keep = 1
+			}
+			tie = fmt.Sprintf("c12.lquery %d %d %d %d %s %s %s %s", lc.CC.MaxChunkSize, lc.CC.MinChunkSize, lc.CC.MinHeadingLevel, keep,
+				hx.HexS(lc.CC.IDPrefix), hx.HexS(src.Title), lowTable(docTexts(src)), layoutWireS(src))
+		}
+		return name, d, rag.NewChunkCollection(res.Chunks), true, tie, true
 	default:
 		path := filepath.Join(c.OutDir, fmt.Sprintf("query-%d.html", idx))
 		os.WriteFile(path, []byte(htmlOf(src)), 0o644)
@@ -349,17 +426,26 @@ func querySource(c *hx.Ctx, r *hx.Rng, idx int, sz sizeCase, src ldoc) (name str
 		var doc *model.Document
 		var e1, e2 error
 		doc, _, e1 = tabula.Open(path).Document()
+		w, wok := "preset=default", true
 		if r.Bool() {
 			name = "tabula.Open(html).Chunks()"
 			coll, _, e2 = tabula.Open(path).Chunks()
 		} else {
 			name = "tabula.Open(html).ChunksWithConfig(" + sz.Name + ")"
 			coll, _, e2 = tabula.Open(path).ChunksWithConfig(sz.CC, sz.Cfg)
+			if _, isPreset := presetNames[sz.Name]; isPreset {
+				w = "preset=" + sz.Name
+			} else {
+				w, wok = cfgWire(sz.Cfg)
+			}
 		}
 		if e1 != nil || e2 != nil || doc == nil || coll == nil {
-			return name, d, nil, false, false
+			return name, d, nil, false, "", false
 		}
-		return name, fromModel(doc), coll, false, true
+		if wok && small {
+			tie = "c12.query " + w + " " + modelWire(doc)
+		}
+		return name, fromModel(doc), coll, false, tie, true
 	}
 }
 
@@ -400,9 +486,10 @@ func runQuery(c *hx.Ctx, idx int) {
 	var d ldoc
 	var coll *rag.ChunkCollection
 	var layout, ok bool
+	var tie string
 	var base []csnap
 	p := hx.Safe(func() {
-		name, d, coll, layout, ok = querySource(c, r, idx, sz, src)
+		name, d, coll, layout, tie, ok = querySource(c, r, idx, sz, src)
 		if ok {
 			base = snapshot(coll.Chunks)
 		}
@@ -444,6 +531,12 @@ func runQuery(c *hx.Ctx, idx int) {
 	}
 
 	colls := []*rag.ChunkCollection{coll}
+	// the history in the model's grammar: mstore[i] is the model's number of colls[i] (-1: the
+	// collection came from a call that is not sent), wsteps/wreplies the calls and what the
+	// implementation answered
+	mstore := []int{0}
+	nextStore := 1
+	var wsteps, wreplies []string
 	steps := r.Range(1, 7)
 	properSubset := false
 	for s := 0; s < steps; s++ {
@@ -479,6 +572,45 @@ func runQuery(c *hx.Ctx, idx int) {
 		})
 		if !c.Check("C12/panic", p == "", k, func() string { return "panic in " + label + ": " + p + "; " + what() }) {
 			return
+		}
+
+		// the step for the model
+		sent := tie != "" && len(st.calls) > 0 && mstore[ti] >= 0
+		if sent {
+			for j, call := range st.calls {
+				var reply string
+				switch {
+				case st.get != nil:
+					if j >= len(got) {
+						continue
+					}
+					reply = dumpOne(got[j])
+				case call == "count":
+					reply = fmt.Sprintf("n%d", target.Count())
+				case call == "prange":
+					a, b := target.GetPageRange()
+					reply = fmt.Sprintf("p%d:%d", a, b)
+				case call == "secs":
+					reply = "s~"
+					if ss := target.GetAllSections(); len(ss) > 0 {
+						hs := make([]string, len(ss))
+						for i, x := range ss {
+							hs[i] = hx.HexS(x)
+						}
+						reply = "s" + strings.Join(hs, "+")
+					}
+				case call == "tok":
+					reply = fmt.Sprintf("n%d", target.GetTotalTokens())
+				default:
+					if res == nil {
+						continue
+					}
+					reply = dumpIdx(res.Chunks)
+				}
+				wsteps = append(wsteps, fmt.Sprintf("%d:%s", mstore[ti], call))
+				wreplies = append(wreplies, reply)
+			}
+			c.Count("query/step-sent-to-model=" + st.kind)
 		}
 
 		// 1. the chunks of the document after the read: the statement's clauses again
@@ -613,6 +745,20 @@ func runQuery(c *hx.Ctx, idx int) {
 			properSubset = true
 		}
 		colls = append(colls, res)
+		if sent {
+			mstore = append(mstore, nextStore)
+			nextStore++
+		} else {
+			mstore = append(mstore, -1)
+		}
+	}
+	if len(wsteps) > 0 {
+		c.Op(tie+" q="+strings.Join(wsteps, ","), strings.Join(wreplies, "|"))
+		if layout {
+			c.Count("query/history-replayed-on-model=layout-based")
+		} else {
+			c.Count("query/history-replayed-on-model=element-based")
+		}
 	}
 	src0 := "element-based"
 	if layout {
